@@ -119,12 +119,13 @@ class Chooser:
 
 
 class Explorer:
-    def __init__(self, harness, bound=None, merge=True, max_execs=None, on_exec=None):
+    def __init__(self, harness, bound=None, merge=True, max_execs=None, on_exec=None, max_violations=40):
         self.harness = harness
         self.bound = bound
         self.merge = merge
         self.max_execs = max_execs
         self.on_exec = on_exec
+        self.max_violations = max_violations
         self.seen = set()
         self.merged = 0
         self.execs = 0
@@ -166,6 +167,11 @@ class Explorer:
             self.max_depth = max(self.max_depth, len(ch.choices))
             if viol is not None:
                 self.violations.append((viol, list(ch.choices)))
+                if self.max_violations and len(self.violations) >= self.max_violations:
+                    # enough counterexamples from this scenario: stop (the run is a failure anyway; reported as capped)
+                    self.capped = True
+                    break
+                continue  # do not expand the alternatives of a failing execution
             if ch.pruned_at is None:
                 self.complete_execs += 1
                 if viol is None:
